@@ -61,6 +61,8 @@ PROPS = {
         'backupbind': (16700, 40000),     # files moved aside and restored through the real FileBackups (FBBackup!Name)
         'fault_units': (240, 3000, 0, 0), 'fault_profile': ['subcache', 'crash'],
         'fault_calls': ['gzip.open:w', 'gzip.write'],
+        # a library error that the program catches earlier in a build that then fails (any faultable call)
+        'fault_extra': [('faultretry', 60, 800, 0, 0, None)],
         'owned': {'ExcIdentity', 'RollbackRestores', 'ExceptionPropagates', 'ExceptionClassMatches',
                   'TempDirRemoved', 'ForeignUntouched', 'CacheReplacedOnlyOnSuccess', 'FaultSurfaces',
                   'SlotName', 'SlotNamesDistinct', 'SlotSequence', 'RestoreAll', 'BackupMoves'},
@@ -221,7 +223,7 @@ PROPS = {
         # pairs q/t, fully enumerated histories q/t
         'thread_extra': [('threadsrb', 40, 500, 0, 0, 2, 10, 2, 30), ('threadsq', 60, 600, 8, 0, 2, 8, 6, 40)],
         'units': [('regress', 0, 0)],
-        'owned': set(CLAUSE_OWNER) | {'NoDeadlock', 'LockOrderAcyclic', 'LockOrderDocumented', 'LockOrderSameRole'},
+        'owned': set(CLAUSE_OWNER) | {'NoDeadlock', 'LockOrderAcyclic', 'LockOrderDocumented', 'LockOrderSameRole', 'CleanupRemovesOwnDirsOnly'},
         'nontrivial': lambda st, sc: any(x.get('s') == 'par' and (x.get('preempt') or x.get('rseed') is not None)
                                          for stp in sc['steps'] for x in stp.get('root', [])),
         'rule': 'root functions issuing 2-3 independent build_file/subbuild calls from cooperative threads: new / '
@@ -268,6 +270,9 @@ PROPS = {
         'repotests': True,
         'mc_quick': ['MC_quick_clean.cfg'], 'mc_thorough': [('MC_tiny.cfg', 900)],
         'title': 'clean',
+        # clean after builds that created their directories from several threads (who owns a directory is decided in
+        # the window between mkdir and the reservation): the canonical race shape, all preemption pairs
+        'thread_units': (30, 400, 4, 0, 1, 6), 'full_pairs': (8, 80),
         'units': [('swap', 800, 10000), ('subcache', 800, 10000), ('clean', 2000, 30000), ('rebuildclean', 2000, 30000), ('nested', 1500, 20000), ('foreign', 300, 5000)],
         'owned': {'CleanExact', 'CleanNoCacheNoEffect', 'ForeignUntouched', 'NoSpuriousException',
                   'ReuseOnlyIfValid'},
